@@ -1,1 +1,299 @@
-(* placeholder: proofs are delivered into this file *)
+(* Glue between the file-level theorems (C01 / C02: sequential reading of the pipeline,
+   FileModel.pipe_seq) and the concurrency theorem C03 (PipeConc, arbitrary stream object):
+   instantiating the stream object with the real mode objects (ModesModel.runcry over the AES
+   model) transfers the round trip to every terminating schedule.
+
+   Layout:
+   1. the two sequential descriptions coincide: [tr_blocks] over [runcry] is [ModesModel.run],
+      and a successful [pipe_chunks] is chunk by chunk what [seq_chunks] computes ([glue]);
+   2. the loads of the encryptor and of the decryptor are well formed ([wf_loads]);
+   3. what encryption computes, with the pieces C01 needs named ([enc_pieces]);
+   4. the required lemma and a non-vacuity example. *)
+From Coq Require Import NArith ZArith List Bool Arith Lia PeanoNat ZifyNat ZifyN ZifyBool.
+From Wencry Require Import Bytes AesSpec AesModel ModesSpec ModesModel HashSpec HashModel
+  FileModel FileSpec FileProps AesProofs ModesProofs HashProofs HmacProofs FileProofsDec
+  PipeConc PipeProps PipeProofs.
+From Wencry.Gen Require Layout.
+Import ListNotations.
+Local Open Scope nat_scope.
+Local Ltac Zify.zify_post_hook ::= Z.to_euclidean_division_equations.
+
+Opaque aes_enc_with aes_dec_with genall hmac_model getStringHash magic_bytes.
+
+(* ------------------------------------------------------------------------------------------ *)
+(* 1. pipe_chunks versus seq_chunks                                                            *)
+(* ------------------------------------------------------------------------------------------ *)
+
+Section Glue.
+Variables E D : list N -> list N.
+Variable kind : mkind.
+Variable T c : nat.
+Variable pad : bool.
+
+Lemma tr_blocks_run : forall bs iv,
+  tr_blocks (list N) (runcry E D kind) iv bs = ModesModel.run E D kind iv bs.
+Proof.
+  induction bs as [|b r IH]; intro iv; [reflexivity|].
+  cbn [tr_blocks ModesModel.run].
+  destruct (runcry E D kind iv b) as [iv' b']. rewrite IH. reflexivity.
+Qed.
+
+Lemma export_header_only : forall l data,
+  export c pad {| ld_data := []; ld_total := ld_total l; ld_final := ld_final l |} data =
+  export c pad l data.
+Proof. intros l data. reflexivity. Qed.
+
+Lemma glue : 1 <= T -> forall ls sts j out,
+  length sts = T ->
+  Forall (fun l => 1 <= ld_total l) ls ->
+  pipe_chunks E D kind T c pad sts j ls = Ok out ->
+  all_ok (snd (seq_chunks (list N) (runcry E D kind) c pad T sts j ls)) /\
+  concat (ok_bytes (snd (seq_chunks (list N) (runcry E D kind) c pad T sts j ls))) = out.
+Proof.
+  intro HT. induction ls as [|l r IH]; intros sts j out Hl Hwf Hp.
+  - cbn [pipe_chunks] in Hp. injection Hp as <-.
+    cbn [seq_chunks snd ok_bytes map concat]. split; [constructor | reflexivity].
+  - inversion Hwf as [|l0 r0 Hl1 Hr]; subst l0 r0.
+    cbn [pipe_chunks] in Hp.
+    assert (Hz : ld_final l && (ld_total l =? 0) = false).
+    { destruct (Nat.eqb_spec (ld_total l) 0) as [E0|_]; [lia|]. apply andb_false_r. }
+    rewrite Hz in Hp.
+    assert (Hi : j mod T < length sts) by (rewrite Hl; apply Nat.mod_upper_bound; lia).
+    cbn [seq_chunks]. rewrite (nth_error_nth' sts [] Hi).
+    rewrite tr_blocks_run.
+    destruct (ModesModel.run E D kind (nth (j mod T) sts []) (blocks16_of (ld_data l))) as [iv' o].
+    rewrite export_header_only.
+    destruct (export c pad l (concat o)) as [b | | |] eqn:Eexp; try discriminate Hp.
+    destruct (pipe_chunks E D kind T c pad (FileModel.set_nth (j mod T) iv' sts) (S j) r)
+      as [rest | | |] eqn:Erest; try discriminate Hp.
+    injection Hp as <-.
+    destruct (IH (FileModel.set_nth (j mod T) iv' sts) (S j) rest) as [I1 I2].
+    + rewrite fset_nth_length. exact Hl.
+    + exact Hr.
+    + exact Erest.
+    + destruct (seq_chunks (list N) (runcry E D kind) c pad T
+                  (FileModel.set_nth (j mod T) iv' sts) (S j) r) as [sts' rs].
+      cbn [snd] in *. split.
+      * constructor; [exists b; reflexivity | exact I1].
+      * cbn [ok_bytes map concat]. fold (ok_bytes rs). rewrite I2. reflexivity.
+Qed.
+End Glue.
+
+(* ------------------------------------------------------------------------------------------ *)
+(* 2. the loads are well formed                                                                *)
+(* ------------------------------------------------------------------------------------------ *)
+
+(* only the last load is final, every load is well formed *)
+Inductive wfl : list load -> Prop :=
+| wfl_last l : ld_final l = true -> wf_load l -> wfl [l]
+| wfl_cons l r : ld_final l = false -> wf_load l -> wfl r -> wfl (l :: r).
+
+Lemma wfl_wf_loads : forall ls, wfl ls -> wf_loads ls.
+Proof.
+  intros ls H. split; [|split].
+  - destruct H; discriminate.
+  - induction H as [l H1 H2 | l r H1 H2 H3 IH]; constructor; try assumption. constructor.
+  - induction H as [l H1 H2 | l r H1 H2 H3 IH]; intros i Hi.
+    + cbn [length] in Hi. assert (i = 0) by lia. subst i. cbn [nth length]. exact H1.
+    + destruct i as [|i].
+      * cbn [nth length]. rewrite H1. destruct r; [inversion H3|]. reflexivity.
+      * cbn [nth length] in *. rewrite IH by lia. reflexivity.
+Qed.
+
+Lemma wfl_total : forall ls, wfl ls -> Forall (fun l => 1 <= ld_total l) ls.
+Proof.
+  intros ls H. induction H as [l H1 H2 | l r H1 H2 H3 IH]; constructor;
+    try exact (proj1 H2); try assumption. constructor.
+Qed.
+
+Lemma wfl_enc : forall c, 1 <= c -> forall n P, length P < sum c * S n -> bytes P ->
+  wfl (loads_of c true P).
+Proof.
+  intros c Hc.
+  assert (Hlast : forall P, length P < sum c -> bytes P -> wfl (loads_of c true P)).
+  { intros P HP Hb. rewrite loads_of_enc_last by exact HP.
+    apply wfl_last; [reflexivity|]. unfold wf_load, blocks16_of. cbn [ld_total ld_data].
+    split; [lia|].
+    exact (proj2 (proj2 (chunks16_of_mul _ (padded P) (padded_length P) (padded_bytes P Hb)))). }
+  induction n as [|n IH]; intros P HP Hb.
+  - apply Hlast; [lia | exact Hb].
+  - destruct (Nat.lt_ge_cases (length P) (sum c)) as [Hlt|Hge]; [apply Hlast; assumption|].
+    rewrite loads_of_enc_full by assumption.
+    apply wfl_cons; [reflexivity | |].
+    + unfold wf_load, blocks16_of. cbn [ld_total ld_data]. split; [exact Hc|].
+      apply (chunks16_of_mul c (firstn (sum c) P)).
+      * rewrite firstn_length, Nat.min_l by exact Hge. apply sum_eq.
+      * apply bytes_firstn_skipn. exact Hb.
+    + apply IH.
+      * rewrite skipn_length. rewrite (Nat.mul_succ_r _ (S n)) in HP. lia.
+      * apply bytes_firstn_skipn. exact Hb.
+Qed.
+
+Lemma wfl_dec : forall c, 1 <= c -> forall n t B, length B = 16 * t -> 1 <= t -> t <= c * S n ->
+  bytes B -> wfl (loads_of c false B).
+Proof.
+  intros c Hc.
+  assert (Hlast : forall t B, length B = 16 * t -> 1 <= t -> t <= c -> bytes B ->
+                  wfl (loads_of c false B)).
+  { intros t B HB Ht1 Ht Hb. rewrite (loads_of_dec_last c B t HB Ht).
+    apply wfl_last; [reflexivity|]. unfold wf_load, blocks16_of. cbn [ld_total ld_data].
+    split; [exact Ht1|]. apply (chunks16_of_mul t B HB Hb). }
+  induction n as [|n IH]; intros t B HB Ht1 Ht Hb.
+  - apply (Hlast t); try assumption. lia.
+  - destruct (Nat.le_gt_cases t c) as [Hle|Hgt]; [apply (Hlast t); assumption|].
+    destruct (split_at (sum c) B) as [A [R [-> [HA HR]]]]; [rewrite sum_eq; lia|].
+    rewrite app_length in HR, HB. rewrite sum_eq in *.
+    apply Forall_app in Hb. destruct Hb as [HbA HbR].
+    assert (HneR : R <> []) by (intro He; subst R; cbn [length] in HB; lia).
+    rewrite loads_of_dec_full by (try assumption; rewrite sum_eq; exact HA).
+    apply wfl_cons; [reflexivity | |].
+    + unfold wf_load, blocks16_of. cbn [ld_total ld_data]. split; [exact Hc|].
+      apply (chunks16_of_mul c A HA HbA).
+    + apply (IH (t - c)); try assumption; try lia.
+Qed.
+
+(* ------------------------------------------------------------------------------------------ *)
+(* 3. what encryption computes, piece by piece (the assembly of C01_roundtrip_proof with the   *)
+(*    intermediate objects exposed)                                                            *)
+(* ------------------------------------------------------------------------------------------ *)
+
+Lemma enc_pieces : forall c hbuf T P key seed cm hm,
+  enc_params c hbuf T P key seed cm hm ->
+  exists F ke kd body,
+    enc c hbuf T P key cm hm seed = Ok F /\
+    create true cm = Some ke /\ create false cm = Some kd /\
+    pipe_chunks (aes_enc key) (aes_dec key) ke T c true
+                (repeat (firstn 16 (iv_chain seed T)) T) 0 (loads_of c true P) = Ok body /\
+    pipe_chunks (aes_enc key) (aes_dec key) kd T c false
+                (repeat (firstn 16 (iv_chain seed T)) T) 0 (loads_of c false body) = Ok P /\
+    firstn 16 (skipn 48 F) = firstn 16 (iv_chain seed T) /\
+    skipn (text_mark T) F = body /\
+    bytes P /\ bytes body /\ length body = 16 * (length P / 16 + 1).
+Proof.
+  intros c hbuf T P key seed cm hm [Hc Hh HT HP Hkey Hseed Hcm Hhm HsP HsT HsS].
+  destruct (create_kpair cm Hcm) as [ke [kd [Hke [Hkd Hk]]]].
+  destruct (iv_chain_props seed T HT) as [Hivl Hivb].
+  assert (Hiv16 : block16 (firstn 16 (iv_chain seed T))).
+  { apply block16_iff. split; [rewrite firstn_length; lia|apply bytes_firstn_skipn; exact Hivb]. }
+  apply bytesb_bytes in HP.
+  assert (Hfuel : length P < sum c * S (length P)).
+  { rewrite sum_eq. nia. }
+  destruct (pipe_roundtrip (aes_enc key) (aes_dec key)
+              (fun b Hb => C09_decrypt_inverts_encrypt_proof key b Hkey Hb)
+              (fun b Hb => proj1 (C09_outputs_are_blocks_proof key b Hkey Hb))
+              ke kd T c Hk HT Hc (length P) P Hfuel HP 0
+              (repeat (firstn 16 (iv_chain seed T)) T) (repeat_length _ _)
+              (Forall_repeat _ _ _ _ Hiv16)) as [body [B1 [B2 [B3 B4]]]].
+  assert (Hhdr : file_header cm hm (iv_chain seed T) T ++ body =
+                 (magic_bytes ++ [cm; hm]) ++ zeros 38 ++ (iv_chain seed T ++ body)).
+  { unfold file_header. change (N.to_nat Layout.PADDING) with 38.
+    rewrite (firstn_all2 (iv_chain seed T)) by lia. rewrite <- !app_assoc. reflexivity. }
+  set (ivs := iv_chain seed T) in *.
+  set (A := magic_bytes ++ [cm; hm]) in *.
+  assert (HA : length A = 10) by (unfold A; rewrite app_length, magic_length; reflexivity).
+  assert (Hmsg : skipn 48 (file_header cm hm ivs T ++ body) = ivs ++ body).
+  { rewrite Hhdr. rewrite app_assoc. apply skipn_app_exact.
+    rewrite app_length, HA, zeros_length. reflexivity. }
+  assert (Hmac : hmac_model hbuf hm key (ivs ++ body) =
+                 Some (hmac_spec (hash_spec hm) key (ivs ++ body))).
+  { apply C08_tag_is_rfc2104_hmac_proof; try assumption.
+    - apply bytesb_bytes. apply bytes_app; assumption.
+    - rewrite app_length, Hivl, B3, pow64. rewrite pow56 in HsP. lia. }
+  set (tag := hmac_spec (hash_spec hm) key (ivs ++ body)) in *.
+  assert (Htl : length tag <= 32) by exact (hlen_le _ _ _ _ _ Hmac).
+  set (F := patch (file_header cm hm ivs T ++ body) hmac_mark tag).
+  assert (HF : F = A ++ tag ++ zeros (38 - length tag) ++ (ivs ++ body)).
+  { unfold F. rewrite Hhdr. change hmac_mark with 10. rewrite <- HA.
+    apply patch_in_zeros. lia. }
+  assert (Henc : enc c hbuf T P key cm hm seed = Ok F).
+  { apply (enc_ok c hbuf T P key cm hm seed ke body tag Hke).
+    - exact B1.
+    - change iv_mark with 48. fold ivs. rewrite Hmsg. exact Hmac. }
+  assert (Hsk48 : skipn 48 F = ivs ++ body).
+  { rewrite HF. rewrite (app_assoc tag), (app_assoc A). apply skipn_app_exact.
+    rewrite !app_length, HA, zeros_length. lia. }
+  exists F, ke, kd, body.
+  split; [exact Henc|]. split; [exact Hke|]. split; [exact Hkd|].
+  split; [exact B1|]. split; [exact B2|].
+  split; [rewrite Hsk48; apply firstn_app_ge; lia|].
+  split.
+  { rewrite text_mark_eq, HF. rewrite !app_assoc.
+    apply skipn_app_exact. rewrite !app_length, HA, zeros_length, Hivl. lia. }
+  split; [exact HP|]. split; [exact B4 | exact B3].
+Qed.
+
+(* ------------------------------------------------------------------------------------------ *)
+(* 4. the required lemma                                                                       *)
+(* ------------------------------------------------------------------------------------------ *)
+
+(* one pipeline: a successful sequential reading fixes the output of every terminating schedule *)
+Lemma every_schedule : forall E D kind T c pad iv16 ls out,
+  1 <= T -> wfl ls ->
+  pipe_chunks E D kind T c pad (repeat iv16 T) 0 ls = Ok out ->
+  forall sched s,
+    PipeConc.run (list N) (runcry E D kind) (fun _ _ => []) c pad
+                 (init (list N) T (repeat iv16 T) ls) sched = Some s ->
+    terminal (list N) s = true ->
+    concat (output (list N) s) = out /\ crashed (list N) s = None.
+Proof.
+  intros E D kind T c pad iv16 ls out HT Hwf Hp sched s Hrun Hterm.
+  destruct (glue E D kind T c pad HT ls (repeat iv16 T) 0 out (repeat_length _ _)
+                 (wfl_total ls Hwf) Hp) as [G1 G2].
+  destruct (C03_output_is_schedule_independent_proof (list N) (runcry E D kind) (fun _ _ => [])
+              c pad T (repeat iv16 T) ls sched s HT (repeat_length _ _) (wfl_wf_loads ls Hwf)
+              G1 Hrun Hterm) as [O1 [_ O3]].
+  split; [rewrite O1; exact G2 | exact O3].
+Qed.
+
+Lemma C01_roundtrip_under_every_schedule_proof : forall c hbuf T P key seed cm hm,
+  enc_params c hbuf T P key seed cm hm ->
+  exists F ke kd,
+    enc c hbuf T P key cm hm seed = Ok F /\
+    create true cm = Some ke /\ create false cm = Some kd /\
+    let E := aes_enc_with (genall key) in
+    let D := aes_dec_with (genall key) in
+    let iv16 := firstn 16 (skipn 48 F) in
+    let body := skipn (text_mark T) F in
+    (forall sched s,
+        PipeConc.run (list N) (runcry E D ke) (fun _ _ => []) c true
+            (init (list N) T (repeat iv16 T) (loads_of c true P)) sched = Some s ->
+        terminal (list N) s = true ->
+        concat (output (list N) s) = body /\ crashed (list N) s = None) /\
+    (forall sched s,
+        PipeConc.run (list N) (runcry E D kd) (fun _ _ => []) c false
+            (init (list N) T (repeat iv16 T) (loads_of c false body)) sched = Some s ->
+        terminal (list N) s = true ->
+        concat (output (list N) s) = P /\ crashed (list N) s = None).
+Proof.
+  intros c hbuf T P key seed cm hm Hp.
+  destruct (enc_pieces c hbuf T P key seed cm hm Hp)
+    as [F [ke [kd [body [Henc [Hke [Hkd [B1 [B2 [Hiv [Hbody [HbP [Hbb Hlb]]]]]]]]]]]]].
+  destruct Hp as [Hc Hh HT HP Hkey Hseed Hcm Hhm HsP HsT HsS].
+  exists F, ke, kd.
+  split; [exact Henc|]. split; [exact Hke|]. split; [exact Hkd|].
+  cbv zeta. rewrite Hiv, Hbody.
+  split.
+  - apply (every_schedule (aes_enc_with (genall key)) (aes_dec_with (genall key)) ke T c true
+             (firstn 16 (iv_chain seed T)) (loads_of c true P) body HT).
+    + apply (wfl_enc c Hc (length P) P); [rewrite sum_eq; nia | exact HbP].
+    + exact B1.
+  - apply (every_schedule (aes_enc_with (genall key)) (aes_dec_with (genall key)) kd T c false
+             (firstn 16 (iv_chain seed T)) (loads_of c false body) P HT).
+    + apply (wfl_dec c Hc (length P) (length P / 16 + 1) body Hlb); [lia | nia | exact Hbb].
+    + exact B2.
+Qed.
+Print Assumptions C01_roundtrip_under_every_schedule_proof.
+
+(* non-vacuity: the hypothesis holds on a concrete non-trivial instance (CBC, SHA-256, 3 streams,
+   40 plaintext bytes, 2-block chunks: one full load and a final one) *)
+Example C01b_nonvacuous :
+  enc_params 2 1 3 (map N.of_nat (seq 0 40)) (repeat 11%N 16) [1; 2; 3]%N 1%N 2%N.
+Proof. exact C01_nonvacuous. Qed.
+
+(* the glue hypotheses on that instance: the loads are well formed and the sequential reading succeeds *)
+Example C01b_loads_nonvacuous :
+  let P := map N.of_nat (seq 0 40) in
+  length (loads_of 2 true P) = 2 /\
+  map ld_final (loads_of 2 true P) = [false; true] /\
+  map ld_total (loads_of 2 true P) = [2; 1].
+Proof. vm_compute. repeat split. Qed.
